@@ -325,7 +325,7 @@ def lian_batch(jobs, parallel=None, timeout=300, env=None):
             os.remove(job["out"])
         jp = os.path.join(d, "job.json")
         with open(jp, "w") as f:
-            json.dump(job, f)
+            json.dump({k: v for k, v in job.items() if not k.startswith("_")}, f)
         q.put((i, jp, job))
     # hash seed groups: a zygote has one PYTHONHASHSEED
     seeds = sorted({str(j.get("hashseed", 0)) for j in jobs})
